@@ -49,7 +49,29 @@ pub fn load_known(path: &str) -> Result<Vec<Known>, String> {
     Ok(out)
 }
 
-pub const HANG_LIMIT_S: u64 = 20;
+/// A run is declared hung when, after HANG_WALL_S seconds of wall-clock time, its thread goes on to burn another
+/// HANG_CPU_S seconds of *CPU time* without finishing (a library call that never returns spins; a run that is merely
+/// starved on a loaded machine accumulates no CPU time and is left alone). Wall-clock alone is used only when the
+/// per-thread CPU time can not be read (no /proc), with a much larger limit.
+pub const HANG_WALL_S: u64 = 5;
+pub const HANG_CPU_S: u64 = 30;
+pub const HANG_WALL_FALLBACK_S: u64 = 900;
+pub const HANG_LIMIT_S: u64 = HANG_CPU_S;
+
+/// CPU time (user + system, in clock ticks of 1/100 s) of a thread of this process, or of the whole process (tid 0)
+fn cpu_ticks(tid: u64) -> Option<u64> {
+    let path = if tid == 0 { "/proc/self/stat".to_string() } else { format!("/proc/self/task/{}/stat", tid) };
+    let t = std::fs::read_to_string(path).ok()?;
+    let rest = &t[t.rfind(')')? + 1..];
+    let f: Vec<&str> = rest.split_whitespace().collect();
+    let ut: u64 = f.get(11)?.parse().ok()?;
+    let st: u64 = f.get(12)?.parse().ok()?;
+    Some(ut + st)
+}
+
+fn own_tid() -> u64 {
+    std::fs::read_link("/proc/thread-self").ok().and_then(|p| p.file_name().and_then(|n| n.to_str().and_then(|s| s.parse().ok()))).unwrap_or(0)
+}
 
 /// A run that does not finish: write its program as the replay file, print the violation, exit 1.
 fn report_hang(sc: &dyn Scenario, target: &'static str, tier: Tier, seed: u64, idx: u64) -> ! {
@@ -63,13 +85,13 @@ fn report_hang(sc: &dyn Scenario, target: &'static str, tier: Tier, seed: u64, i
         ("property".to_string(), target.to_string()),
         ("clause".to_string(), "hang".to_string()),
         ("site".to_string(), "timeout".to_string()),
-        ("detail".to_string(), format!("run did not finish within {} s: a library call does not return (not minimised)", HANG_LIMIT_S)),
+        ("detail".to_string(), format!("run did not finish within {} s of CPU time: a library call does not return (not minimised)", HANG_LIMIT_S)),
         ("seed".to_string(), seed.to_string()),
         ("run".to_string(), idx.to_string()),
     ];
     let _ = std::fs::write(&path, p.to_text(&header));
     println!("violation: property={} clause=hang site=timeout", target);
-    println!("detail: scenario={} run={} did not finish within {} s (a library call does not return)", sc.name(), idx, HANG_LIMIT_S);
+    println!("detail: scenario={} run={} did not finish within {} s of CPU time (a library call does not return)", sc.name(), idx, HANG_LIMIT_S);
     println!("VIOLATION property={} replay={}", target, path);
     std::process::exit(1);
 }
@@ -100,27 +122,47 @@ pub fn run_batch(sc: &dyn Scenario, sc_ix: usize, target: &'static str, tier: Ti
     // the calls return, so a run stuck for HANG_LIMIT_S seconds is reported as a violation of the target.
     let cur: Vec<AtomicU64> = (0..jobs).map(|_| AtomicU64::new(0)).collect();
     let since: Vec<AtomicU64> = (0..jobs).map(|_| AtomicU64::new(0)).collect();
+    let tids: Vec<AtomicU64> = (0..jobs).map(|_| AtomicU64::new(0)).collect();
     let t_batch = Instant::now();
     let done = std::sync::atomic::AtomicBool::new(false);
     let active = AtomicU64::new(jobs as u64);
     std::thread::scope(|s| {
         s.spawn(|| {
+            // (run marked, CPU ticks of its thread when it was marked)
+            let mut mark: Vec<(u64, u64)> = vec![(0, 0); jobs];
             while !done.load(Ordering::Relaxed) && active.load(Ordering::Relaxed) > 0 {
                 std::thread::sleep(std::time::Duration::from_millis(250));
                 let now = t_batch.elapsed().as_millis() as u64;
                 for w in 0..jobs {
                     let c = cur[w].load(Ordering::Relaxed);
                     let t0 = since[w].load(Ordering::Relaxed);
-                    if c != 0 && now.saturating_sub(t0) > HANG_LIMIT_S * 1000 && cur[w].load(Ordering::Relaxed) == c {
-                        report_hang(sc, target, tier, seed, c - 1);
+                    if c == 0 || now.saturating_sub(t0) <= HANG_WALL_S * 1000 {
+                        mark[w] = (0, 0);
+                        continue;
+                    }
+                    let tid = tids[w].load(Ordering::Relaxed);
+                    match if tid != 0 { cpu_ticks(tid) } else { None } {
+                        Some(ticks) => {
+                            if mark[w].0 != c {
+                                mark[w] = (c, ticks);
+                            } else if ticks.saturating_sub(mark[w].1) > HANG_CPU_S * 100 && cur[w].load(Ordering::Relaxed) == c {
+                                report_hang(sc, target, tier, seed, c - 1);
+                            }
+                        }
+                        None => {
+                            if now.saturating_sub(t0) > HANG_WALL_FALLBACK_S * 1000 && cur[w].load(Ordering::Relaxed) == c {
+                                report_hang(sc, target, tier, seed, c - 1);
+                            }
+                        }
                     }
                 }
             }
         });
         for wix in 0..jobs {
-            let (cur, since, active, t_batch) = (&cur, &since, &active, &t_batch);
+            let (cur, since, active, t_batch, tids) = (&cur, &since, &active, &t_batch, &tids);
             let (next, min_bad, results) = (&next, &min_bad, &results);
             s.spawn(move || {
+                tids[wix].store(own_tid(), Ordering::Relaxed);
                 let mut agg = Stats::default();
                 let mut hashes: Vec<u64> = vec![];
                 let mut found: Option<Found> = None;
@@ -346,9 +388,15 @@ pub fn replay_file(all: &[Box<dyn Scenario>], path: &str, quiet: bool) -> i32 {
     let result = std::thread::scope(|s| {
         s.spawn(|| {
             let t0 = Instant::now();
+            let c0 = cpu_ticks(0);
             while !finished.load(Ordering::Relaxed) {
                 std::thread::sleep(std::time::Duration::from_millis(100));
-                if t0.elapsed().as_secs() > HANG_LIMIT_S {
+                // CPU time of the process (this replay is its only work), wall-clock only without /proc
+                let hung = match (c0, cpu_ticks(0)) {
+                    (Some(a), Some(b)) => t0.elapsed().as_secs() > HANG_WALL_S && b.saturating_sub(a) > (HANG_CPU_S + HANG_WALL_S) * 100,
+                    _ => t0.elapsed().as_secs() > HANG_WALL_FALLBACK_S,
+                };
+                if hung {
                     println!("SIG {}|hang|timeout", prop);
                     if !quiet {
                         println!("replayed: property={} clause=hang site=timeout", prop);
